@@ -23,8 +23,20 @@ import (
 
 // ---- label universe -------------------------------------------------------------------------------
 
-// ReplicaLabel sorts before every other label name, so that removing it can reorder series.
+// ReplicaLabel is the default replica label name. It sorts before every other label name of the universe
+// ("r" < "x" < "y"), so removing it reorders series only when its values differ.
 const ReplicaLabel = "r"
+
+// ReplicaNames are the replica label names the replica blocks use: one per position relative to the other
+// label names of the universe (x, y). labels.Compare walks label sets position by position, so where the
+// replica label sits decides what its removal does to the order:
+//
+//	"r"  before x and y: order changes only when replica values differ ({r=1,x=2} < {r=2,x=1});
+//	"xz" between x and y: as "r" for y, and {x=1,xz=2} > {x=1,xz=1,y=1} while {x=1} < {x=1,y=1};
+//	"z"  after x and y: order changes even when every series carries the same value, because a label set
+//	     that ends where another continues meets the replica label earlier:
+//	     {x=1,y=1,z=1} < {x=1,z=1} ("y" < "z") while {x=1} < {x=1,y=1}.
+var ReplicaNames = []string{"r", "xz", "z"}
 
 // finalLabels are the label sets of the universe without the replica label, in labels.Compare order
 // (L1 extends L0: a proper-prefix pair).
@@ -34,11 +46,21 @@ var finalLabels = [][]string{
 	{"x", "2"},
 }
 
-// lset builds label set L with replica value R (0 = no replica label).
-func lset(l, r int) labels.Labels {
+// lsetN builds label set L carrying the replica labels `names`; r is a base-3 number whose i-th digit is
+// the value of names[i] (0 = that label is absent). No names = the single replica label "r".
+func lsetN(l, r int, names []string) labels.Labels {
 	kv := append([]string(nil), finalLabels[l]...)
-	if r > 0 {
-		kv = append(kv, ReplicaLabel, fmt.Sprint(r))
+	if len(names) == 0 {
+		names = []string{ReplicaLabel}
+	}
+	for _, n := range names {
+		if d := r % 3; d > 0 {
+			kv = append(kv, n, fmt.Sprint(d))
+		}
+		r /= 3
+	}
+	if r != 0 {
+		panic("HARNESS-ERROR replica value out of range")
 	}
 	return labels.FromStrings(kv...) // FromStrings sorts by name
 }
@@ -122,7 +144,7 @@ func isAggregate(c storepb.AggrChunk) bool { return c.Raw == nil }
 
 // ---- scripted store -------------------------------------------------------------------------------
 
-// Entry is one series message of a store's stream: label set L, replica value R, chunk ids C.
+// Entry is one series message of a store's stream: label set L, replica value(s) R (see lsetN), chunk ids C.
 type Entry struct {
 	L int   `json:"l"`
 	R int   `json:"r"`
@@ -135,15 +157,16 @@ type Entry struct {
 // Fault (C06 only): "" none, "open" = Series() returns an error, "recv" = the At-th Recv (0-based)
 // returns an error instead of a frame (At = number of frames: instead of EOF).
 type StoreSpec struct {
-	E     []Entry `json:"e"`
-	F     []int   `json:"f,omitempty"`
-	NoWRL bool    `json:"nowrl,omitempty"` // store cannot strip replica labels
-	Fault string  `json:"fault,omitempty"`
-	At    int     `json:"at,omitempty"`
+	E     []Entry  `json:"e"`
+	F     []int    `json:"f,omitempty"`
+	NoWRL bool     `json:"nowrl,omitempty"` // store cannot strip replica labels
+	RL    []string `json:"rl,omitempty"`    // names of the replica labels the entries' R values belong to (none = "r")
+	Fault string   `json:"fault,omitempty"`
+	At    int      `json:"at,omitempty"`
 }
 
 func (s StoreSpec) series(e Entry) *storepb.Series {
-	ser := &storepb.Series{Labels: labelpb.ZLabelsFromPromLabels(lset(e.L, e.R))}
+	ser := &storepb.Series{Labels: labelpb.ZLabelsFromPromLabels(lsetN(e.L, e.R, s.RL))}
 	for _, id := range e.C {
 		ser.Chunks = append(ser.Chunks, mkChunk(id))
 	}
